@@ -455,11 +455,13 @@ where
                 (range.end - range.start) as u64,
             ]);
         }
-        if result {
+        if result && state.is_finished() {
             compression_result = Ok(out_offset);
             break;
-        } else if available_out == 0 {
-            compression_result = Err(BrotliEncoderThreadError::InsufficientOutputSpace); // mark no space??
+        } else if !result || available_out == 0 {
+            // the chunk did not fit (compress_stream also answers true when it merely ran out
+            // of room) or the encoder refused the call: never hand on a partial chunk
+            compression_result = Err(BrotliEncoderThreadError::InsufficientOutputSpace);
             break;
         }
     }
@@ -617,7 +619,8 @@ where
         )
       });
     }
-    let mut compression_result = Err(BrotliEncoderThreadError::InsufficientOutputSpace);
+    // the first failure is the result: later chunks are only collected and released
+    let mut compression_result = Ok(0usize);
     let mut out_file_size = 0usize;
     let mut bro_cat_li = BroCatli::new();
     for (index, thread) in alloc_per_thread.iter_mut().enumerate() {
@@ -643,6 +646,13 @@ where
             }
         };
         match cur_result.compressed {
+            Ok(compressed_out) if compression_result.is_err() => {
+                // an earlier chunk failed: there is nothing to append to, only release the buffer
+                <Alloc as Allocator<u8>>::free_cell(
+                    &mut cur_result.alloc,
+                    compressed_out.data_backing,
+                );
+            }
             Ok(compressed_out) => {
                 bro_cat_li.new_brotli_file();
                 let mut in_offset = 0usize;
@@ -684,7 +694,9 @@ where
             Err(e) => {
                 #[cfg(all(brotli_verif, feature = "std"))]
                 verif_multi::record([6, index as u64, 0, 255, out_file_size as u64, 0, 0, 0]);
-                compression_result = Err(e);
+                if compression_result.is_ok() {
+                    compression_result = Err(e);
+                }
             }
         }
         thread.0 = InternalSendAlloc::A(cur_result.alloc, UnionHasher::Uninit);
